@@ -1,8 +1,6 @@
 package spec
 
 import (
-	"go/ast"
-
 	"lndlint/internal/an"
 )
 
@@ -117,153 +115,7 @@ func runC02(r *an.Run) {
 			}
 		})
 
-	type txSpec struct {
-		fn     string
-		writes []struct {
-			what string
-			term an.Term
-		}
-		// legacyKeys are writes that the documented early return may skip
-		legacy []struct {
-			what string
-			term an.Term
-		}
-		legacyGet string
-	}
-	put := func(key string) an.Term {
-		return an.CallNamed("Put", nil, an.PkgVar("channeldb", key))
-	}
-	del := func(key string) an.Term {
-		return an.CallNamed("Delete", nil, an.PkgVar("channeldb", key))
-	}
-	call := func(id string) an.Term { return an.CallTo(id, nil) }
-	type w = struct {
-		what string
-		term an.Term
-	}
-	txs := []txSpec{
-		{fn: "channeldb.ChannelStateDB.UpdateChannelCommitment", writes: []w{
-			{"putChanInfo", call("channeldb.putChanInfo")},
-			{"putChanCommitment", an.CallTo("channeldb.putChanCommitment", nil, nil, nil, an.BoolConst(true))},
-			{"Put(unsignedAckedUpdatesKey)", put("unsignedAckedUpdatesKey")},
-			{"Put(lastWasRevokeKey)", put("lastWasRevokeKey")},
-		}, legacy: []w{{"Put(remoteUnsignedLocalUpdatesKey)", put("remoteUnsignedLocalUpdatesKey")}}, legacyGet: "remoteUnsignedLocalUpdatesKey"},
-		{fn: "channeldb.ChannelStateDB.AppendRemoteCommitChain", writes: []w{
-			{"AckAddHtlcs", call("channeldb.ChannelPackager.AckAddHtlcs")},
-			{"AckSettleFails", call("channeldb.ChannelPackager.AckSettleFails")},
-			{"Put(lastWasRevokeKey)", put("lastWasRevokeKey")},
-			{"Put(commitDiffKey)", put("commitDiffKey")},
-		}},
-		{fn: "channeldb.ChannelStateDB.AdvanceCommitChainTail", writes: []w{
-			{"putChanRevocationState", call("channeldb.putChanRevocationState")},
-			{"putChanCommitment(remote)", an.CallTo("channeldb.putChanCommitment", nil, nil, nil, an.BoolConst(false))},
-			{"Delete(commitDiffKey)", del("commitDiffKey")},
-			{"putRevocationLog", call("channeldb.putRevocationLog")},
-			{"AddFwdPkg", call("channeldb.ChannelPackager.AddFwdPkg")},
-		}, legacy: []w{
-			{"Put(unsignedAckedUpdatesKey)", put("unsignedAckedUpdatesKey")},
-			{"Put(remoteUnsignedLocalUpdatesKey)", put("remoteUnsignedLocalUpdatesKey")},
-		}, legacyGet: "unsignedAckedUpdatesKey"},
-	}
-	r.Obl("one-transaction-complete-write-set", "PATH",
-		"each state transition of the store runs exactly one kvdb.Update; inside its closure every required durable write is on every nil-error return and is reachable only below !isBorked; writes the legacy early return may skip are required on every other success return",
-		"a write that is skipped on some success path, or moved out of the transaction, makes the reloaded state a mixture of two transitions", 40,
-		func(o *an.Obl) {
-			for _, tx := range txs {
-				f := p.Func(tx.fn)
-				upd := f.Calls(kvUpdate, false)
-				if len(upd) != 1 {
-					o.FailAt(f.ID+"#kvdb.Update-count", f.Where(f.Body.Pos()), "%s contains %d kvdb.Update calls, expected exactly one transaction", f.ID, len(upd))
-					continue
-				}
-				o.Site("transaction %s", upd[0].String())
-				cl := theLit(f, kvUpdate, "kvdb.Update")
-				succ := cl.SuccessReturns()
-				notBorked := an.Truth(an.ResultOf(an.CallTo("channeldb.isChannelBorked", nil), 0), false, "!isBorked")
-				for _, wr := range tx.writes {
-					sites := cl.CallsMatching(wr.term, false)
-					mustPass(o, cl, wr.what, sites, an.OkErrNil, succ)
-					guardedAll(o, cl, sites, notBorked)
-					// and nowhere outside the closure
-					for _, s := range f.CallsMatching(wr.term, false) {
-						o.FailAt(f.ID+"#outside-tx-"+wr.what, s.Where(), "%s is called outside the kvdb.Update closure", wr.what)
-					}
-				}
-				if len(tx.legacy) > 0 {
-					legacyFact := an.IsNil(an.CallNamed("Get", nil, an.PkgVar("channeldb", tx.legacyGet)), true, "Get("+tx.legacyGet+") == nil")
-					var rest []an.Site
-					nLegacy := 0
-					for _, s := range succ {
-						if ok, _ := cl.Guarded(s, legacyFact); ok {
-							nLegacy++
-							o.Site("legacy early return %s", s.String())
-							continue
-						}
-						rest = append(rest, s)
-					}
-					if nLegacy != 1 {
-						o.FailAt(cl.ID+"#legacy-returns", cl.Where(cl.Body.Pos()), "expected exactly one documented early return below %s, found %d", legacyFact.Desc, nLegacy)
-					}
-					for _, wr := range tx.legacy {
-						sites := cl.CallsMatching(wr.term, false)
-						mustPass(o, cl, wr.what, sites, an.OkErrNil, rest)
-					}
-				}
-			}
-		})
-
-	r.Obl("lastWasRevoke-constants", "TABLE",
-		"the value stored under lastWasRevokeKey is the constant true in UpdateChannelCommitment (we just revoked) and false in AppendRemoteCommitChain (we just signed)",
-		"ProcessChanSyncMsg orders the retransmitted revocation and commitment by this flag (C03)", 2,
-		func(o *an.Obl) {
-			for fnID, want := range map[string]bool{
-				"channeldb.ChannelStateDB.UpdateChannelCommitment": true,
-				"channeldb.ChannelStateDB.AppendRemoteCommitChain": false,
-			} {
-				f := p.Func(fnID)
-				cl := theLit(f, kvUpdate, "kvdb.Update")
-				puts := cl.CallsMatching(an.CallNamed("Put", nil, an.PkgVar("channeldb", "lastWasRevokeKey")), false)
-				if len(puts) != 1 {
-					o.FailAt(f.ID+"#Put(lastWasRevokeKey)-count", f.Where(f.Body.Pos()), "expected one Put(lastWasRevokeKey), found %d", len(puts))
-					continue
-				}
-				// Put(key, b.Bytes()) ; WriteElements(&b, CONST)
-				val := callArg(puts[0], 1)
-				var buf *ast.Ident
-				if c, ok := ast.Unparen(val).(*ast.CallExpr); ok {
-					if sel, ok := c.Fun.(*ast.SelectorExpr); ok && sel.Sel.Name == "Bytes" {
-						buf, _ = ast.Unparen(sel.X).(*ast.Ident)
-					}
-				}
-				if buf == nil {
-					o.FailAt(f.ID+"#lastWasRevoke-value", puts[0].Where(), "value stored under lastWasRevokeKey is not <buffer>.Bytes(): %s", an.Text(val))
-					continue
-				}
-				bufObj := cl.Info().Uses[buf]
-				found := 0
-				for _, ws := range cl.Calls(an.CalleeIs("channeldb.WriteElements"), false) {
-					c := ws.Node.(*ast.CallExpr)
-					if len(c.Args) < 1 {
-						continue
-					}
-					id, _ := an.Strip(cl.Info(), c.Args[0]).(*ast.Ident)
-					if id == nil || cl.Info().Uses[id] != bufObj {
-						continue
-					}
-					found++
-					o.Site("%s stores %s", f.ID, an.Text(c))
-					if len(c.Args) != 2 || !an.BoolConst(want)(cl, ast.Unparen(c.Args[1])) {
-						o.FailAt(f.ID+"#lastWasRevoke-value", ws.Where(), "%s must store constant %v under lastWasRevokeKey, stores %s", f.ID, want, an.Text(c))
-					}
-					if !cl.Before([]an.Site{ws}, puts[0]) {
-						o.FailAt(f.ID+"#lastWasRevoke-order", ws.Where(), "the flag buffer is written after it is stored")
-					}
-				}
-				if found != 1 {
-					o.FailAt(f.ID+"#lastWasRevoke-writes", puts[0].Where(), "expected exactly one WriteElements into the flag buffer, found %d", found)
-				}
-			}
-		})
+	commitStoreTransactions(r)
 
 	r.Obl("restore-calls-every-step", "PATH",
 		"NewLightningChannel succeeds only after restoreCommitState ok; restoreCommitState succeeds only after reading RemoteCommitChainTip, UnsignedAckedUpdates, RemoteUnsignedLocalUpdates and restoreStateLogs ok; restoreStateLogs succeeds only after restorePendingRemoteUpdates ok and ends in restorePeerLocalUpdates; restorePendingLocalUpdates is called whenever a pending remote commit exists",
@@ -313,5 +165,6 @@ func runC02(r *an.Run) {
 
 	codecC02(r)
 	windowDiscipline(r)
+	modifiedMarkerDiscipline(r)
 	statusWriters(r)
 }
